@@ -39,7 +39,8 @@ theorem pto_constants_eq : maxPtoBackoff = 1024 ∧ minPtoPeriodMs = 2 := by dec
     (`StreamSend.probeOne`); retransmissions re-send the stored segment (`StreamSend.retransmitOne`);
     `on_transmit_segment` as in `StreamSend.onTransmitSegment` -/
 theorem sender_transmission_shape_eq :
-    probeShape = true ∧ retransmitShape = true ∧ transmitSegmentShape = true ∧ senderIdleArms = true := by decide
+    probeShape = true ∧ retransmitShape = true ∧ retransmitCopyShape = true ∧ transmitSegmentShape = true ∧
+    senderIdleArms = true := by decide
 
 /-- `State::new` arms the idle timer (`StreamRecv.init`), `update_idle_timer` re-arms it at
     `now + idle_timeout` (`StreamRecv.updateIdleTimer`) -/
